@@ -19,7 +19,8 @@ RULE = ('Hypothesis: schema from the shape grammar (single- and multi-attribute 
         'drawn keyword case, comments). Configurations: drawn permutations of ALL statements (schema statements '
         'included; every permutation when <= 6 statements in the thorough tier), partitions of the statement list '
         'into several input() calls and into several files for load_metamodel; ooaofooa-named populations through '
-        'bridgepoint ModelLoader.filename_input as single file, nested directory tree and zip archive; inferred '
+        'bridgepoint ModelLoader.filename_input as single file, nested directory tree, zip archive and several archives / files '
+        'with like-named members on one loader; inferred '
         'schema (positional rows, no CREATE TABLE). Oracle: (1) links = key-join computed by the harness (all '
         'referring values non-null and equal), read by navigating both directions and through referential '
         'attributes; (2) a canonical form (schema, instance multiset, link multiset) identical across all '
@@ -551,6 +552,26 @@ def run_container(case, res=None):
         mz = l.build_metamodel(xtuml.IntegerGenerator())
         if canon_sub(mz) != base:
             fail('container:zip-differs', 'zip archive %r gives another model' % names)
+        # one loader, several containers: every chunk in an archive (or file) of its own, and every archive names its
+        # member alike - what was read from one container says nothing about the next
+        mixed = os.path.join(root, 'mixed')
+        os.makedirs(mixed)
+        l = ooaofooa.ModelLoader(load_globals=False)
+        for k, c in enumerate(chunks):
+            if k % 3 == 2:
+                d = os.path.join(mixed, 'dir%d' % k)
+                os.makedirs(d)
+                with open(os.path.join(d, 'model.xtuml'), 'w') as f:
+                    f.write('\n'.join(c) + '\n')
+                l.filename_input(d if k % 2 else os.path.join(d, 'model.xtuml'))
+            else:
+                zk = os.path.join(mixed, 'part%d.zip' % k)
+                with zipfile.ZipFile(zk, 'w') as z:
+                    z.writestr('model/model.xtuml', '\n'.join(c) + '\n')
+                l.filename_input(zk)
+        mm = l.build_metamodel(xtuml.IntegerGenerator())
+        if canon_sub(mm) != base:
+            fail('container:several-containers-differ', '%d containers with like-named members give another model' % len(chunks))
     except Violation:
         raise
     except Exception as e:
